@@ -154,6 +154,9 @@ pub struct ChanModel {
     /// accepted messages in submission order (serial = index)
     pub msgs: Vec<Msg>,
     pub id_base: u64,
+    /// message-id jumps of the sender (long histories simulated through the id preset hook): (first serial after the jump,
+    /// total offset added to the ids from that serial on)
+    pub jumps: Vec<(usize, u64)>,
     /// ordered: next index to be obtained
     pub next_obtain: usize,
     pub by_hash: HashMap<u64, Vec<usize>>,
@@ -170,6 +173,31 @@ pub struct ChanModel {
     /// unreliable receive channel: some packet arrived when the receive budget might not have had room for it
     /// (the channel then legitimately drops the message)
     pub maybe_dropped: bool,
+}
+
+impl ChanModel {
+    /// Message id of the reliable message with this serial (submission index).
+    pub fn mid_of(&self, serial: usize) -> u64 {
+        let off = self.jumps.iter().rev().find(|(start, _)| *start <= serial).map(|(_, o)| *o).unwrap_or(0);
+        self.id_base + serial as u64 + off
+    }
+    /// Serial of the reliable message with this id; usize::MAX if no submitted message can have it.
+    pub fn index_of(&self, mid: u64) -> usize {
+        let mut end = usize::MAX;
+        for &(start, off) in self.jumps.iter().rev() {
+            if let Some(i) = mid.checked_sub(self.id_base.wrapping_add(off)) {
+                let i = i as usize;
+                if i >= start && i < end {
+                    return i;
+                }
+            }
+            end = start;
+        }
+        match mid.checked_sub(self.id_base) {
+            Some(i) if (i as usize) < end => i as usize,
+            _ => usize::MAX,
+        }
+    }
 }
 
 pub struct DirState {
@@ -277,6 +305,7 @@ impl World {
                             cfg: ch.clone(),
                             msgs: vec![],
                             id_base: 0,
+                            jumps: vec![],
                             next_obtain: 0,
                             by_hash: HashMap::new(),
                             obtained_total: 0,
@@ -375,6 +404,31 @@ impl World {
         self.or.exclude_clients.contains(&client)
     }
 
+    /// Long history simulated with the id preset hook: the sender of a ReliableUnordered channel skips `delta` message ids (as if
+    /// that many messages had been sent, obtained and acknowledged in the meantime). The unordered receiver needs no adjustment:
+    /// it accepts any id at or above its cursor and remembers it in its set.
+    pub fn id_jump(&mut self, d: Dir, ch: u8, delta: u64) -> bool {
+        let cm = &self.dirs[d.idx()].chans[&ch];
+        if cm.cfg.kind != Kind::Unordered {
+            return false;
+        }
+        let n = cm.msgs.len();
+        let next = cm.mid_of(n) + delta;
+        let total = cm.jumps.last().map(|(_, o)| *o).unwrap_or(0) + delta;
+        if d.to_client {
+            let Some(c) = self.server.verif_connection_mut(client_id(d.client)) else { return false };
+            c.verif_set_next_send_message_id(ch, next);
+        } else {
+            self.clients[d.client].verif_set_next_send_message_id(ch, next);
+        }
+        let cm = self.dirs[d.idx()].chans.get_mut(&ch).unwrap();
+        if cm.jumps.last().map(|(s, _)| *s) == Some(n) {
+            cm.jumps.pop();
+        }
+        cm.jumps.push((n, total));
+        true
+    }
+
     // ---- application operations -----------------------------------------
 
     /// Submit a message; `polite` checks can_send_message first. Returns whether it was accepted.
@@ -421,7 +475,7 @@ impl World {
         let parts = if len > SLICE { len.div_ceil(SLICE) } else { 1 };
         let hash = fnv(&content);
         m.by_hash.entry(hash).or_default().push(serial as usize);
-        let mid = if kind.reliable() { m.id_base + serial as u64 } else { 0 };
+        let mid = if kind.reliable() { m.mid_of(serial as usize) } else { 0 };
         m.msgs.push(Msg {
             serial,
             content,
@@ -704,7 +758,7 @@ impl World {
                     };
                     for (mid, len) in msgs {
                         *bytes_by_chan.entry(ch).or_insert(0) += len as u64;
-                        let i = mid.wrapping_sub(cm.id_base) as usize;
+                        let i = cm.index_of(mid);
                         let Some(m) = cm.msgs.get_mut(i) else {
                             if check {
                                 return Err(Fail::new("emitted_unknown_message", format!("packet carries reliable message id {mid} that was never submitted")));
@@ -725,7 +779,7 @@ impl World {
                     let Some(cm) = ds.chans.get_mut(&ch) else {
                         return Err(Fail::new("emitted_unknown_channel", format!("packet for unconfigured channel {ch}")));
                     };
-                    let i = mid.wrapping_sub(cm.id_base) as usize;
+                    let i = cm.index_of(mid);
                     let Some(m) = cm.msgs.get_mut(i) else {
                         if check {
                             return Err(Fail::new("emitted_unknown_message", format!("slice of reliable message id {mid} that was never submitted")));
@@ -901,7 +955,7 @@ impl World {
             let ds = &self.dirs[d.idx()];
             for &(ch, mid, part) in sent_units.iter() {
                 let cm = &ds.chans[&ch];
-                let i = mid.wrapping_sub(cm.id_base) as usize;
+                let i = cm.index_of(mid);
                 let m = &cm.msgs[i];
                 let h = &m.tx_ms[part];
                 if h.len() >= 2 {
@@ -1000,7 +1054,7 @@ impl World {
             PInfo::SmallRel { ch, msgs } => {
                 if let Some(cm) = self.dirs[d.idx()].chans.get_mut(&ch) {
                     for (mid, _) in msgs {
-                        let i = mid.wrapping_sub(cm.id_base) as usize;
+                        let i = cm.index_of(mid);
                         if let Some(m) = cm.msgs.get_mut(i) {
                             if !m.handed[0] {
                                 m.handed[0] = true;
@@ -1012,7 +1066,7 @@ impl World {
             }
             PInfo::RelSlice { ch, mid, idx, .. } => {
                 if let Some(cm) = self.dirs[d.idx()].chans.get_mut(&ch) {
-                    let i = mid.wrapping_sub(cm.id_base) as usize;
+                    let i = cm.index_of(mid);
                     if let Some(m) = cm.msgs.get_mut(i) {
                         if idx < m.parts && !m.handed[idx] {
                             m.handed[idx] = true;
@@ -1063,7 +1117,7 @@ impl World {
                         PInfo::SmallRel { ch, msgs } => {
                             if let Some(cm) = self.dirs[rd.idx()].chans.get_mut(&ch) {
                                 for (mid, _) in msgs {
-                                    let i = mid.wrapping_sub(cm.id_base) as usize;
+                                    let i = cm.index_of(mid);
                                     if let Some(m) = cm.msgs.get_mut(i) {
                                         m.acked_part[0] = true;
                                     }
@@ -1072,7 +1126,7 @@ impl World {
                         }
                         PInfo::RelSlice { ch, mid, idx, .. } => {
                             if let Some(cm) = self.dirs[rd.idx()].chans.get_mut(&ch) {
-                                let i = mid.wrapping_sub(cm.id_base) as usize;
+                                let i = cm.index_of(mid);
                                 if let Some(m) = cm.msgs.get_mut(i) {
                                     if idx < m.parts {
                                         m.acked_part[idx] = true;
